@@ -15,7 +15,9 @@ TRUSTED = [
     "Lean 4.33 kernel; axioms propext, Classical.choice, Quot.sound only (audited per theorem on every run)",
     "hand-written Lean model of the encoders (lean/PS/Model), tied to /repo by the ENC correspondence "
     "(emitted assertion lists compared formula by formula on generated scripts) — differential, generator-bounded",
-    "Fml.eval is taken to be z3's semantics of the printed formula (EVAL channel samples it)",
+    "Fml.eval is taken to be z3's semantics of the printed formula; the EVAL channel samples it on every quantifier-free "
+    "script: evalB (proved equal to eval: satB_sound) against z3's own evaluation of the real assertions under random "
+    "interpretations incl. negative numbers",
     "z3: models satisfy the assertions; unsat is correct",
     "harness: AST walker, canonical renaming of uuid-named variables, Lean printer / s-expression reader",
     "pydantic, Python dict ordering, uuid4 uniqueness",
@@ -564,6 +566,12 @@ def check_script(driver, script, spec, cfg=None):
         res["sem"] = (st, info)
         res["spec_n"] = len(lines)
     res["n_assertions"] = len(out["py"] or [])
+    # EVAL: the computable evaluator of the Lean development against z3's own evaluation of the real assertions
+    try:
+        from harness import evalch
+        res["eval"] = evalch.run_eval(driver, out, random.Random(script_key(script)), cfg, k=2)
+    except Exception as e:  # noqa: BLE001
+        res["eval"] = ([f"EVAL channel error {type(e).__name__}: {e}"], 0)
     return res
 
 
@@ -610,6 +618,10 @@ def run_chunk(args):
                 # an accept / reject decision that differs from the proved decision logic is itself the failing input
                 summary["violations"].append({"label": label, "script": script, "kind": "ACC",
                                               "what": "; ".join(r["decl_diffs"][:3])})
+            ev = r.get("eval") or ([], 0)
+            summary["dist"]["eval_formulas_evaluated"] = summary["dist"].get("eval_formulas_evaluated", 0) + ev[1]
+            if ev[0]:
+                summary["broken"].append({"label": label, "script": script, "channel": "EVAL", "diffs": ev[0][:3]})
             if r["decl_diffs"] or r["rel"]:
                 summary["broken"].append({"label": label, "script": script, "equiv": r.get("equiv"),
                                           "witness": r.get("witness"),
